@@ -357,6 +357,37 @@ func c09PathOK(s string) bool {
 	return true
 }
 
+// c09EmptyPatternExplains: attribution by repair for the repaired class like-empty-pattern — the policy with every
+// zero-component pattern replaced by an ordinary one passes the JSON round trip (first and second).  A policy that merely
+// CONTAINS a zero-component pattern and fails the round trip for another reason keeps the generic class.
+func c09EmptyPatternExplains(p *ast.Policy) bool {
+	changed := false
+	q := vh.MapPolicy(p, func(n ast.IsNode) ast.IsNode {
+		if l, ok := n.(ast.NodeTypeLike); ok && len(types.VerifPatternComps(l.Value)) == 0 {
+			changed = true
+			return ast.NodeTypeLike{Arg: l.Arg, Value: types.NewPattern(types.String("x"))}
+		}
+		return n
+	})
+	if !changed {
+		return false
+	}
+	jb, err := c09MarshalJSON(q)
+	if err != nil {
+		return false
+	}
+	out, qj := c09DecodeJSON(jb)
+	if qj == nil || out != "ok "+c09Show(q, false) {
+		return false
+	}
+	jb2, err := c09MarshalJSON(qj)
+	if err != nil {
+		return false
+	}
+	o2, _ := c09DecodeJSON(jb2)
+	return o2 == out
+}
+
 // c09Traits summarises the shapes of a policy that the classifiers need.
 type c09Traits struct {
 	unknownExt     bool   // call of a name that is not an extension function: outside the JSON format
@@ -685,7 +716,7 @@ func runC09(c *vh.Ctx) {
 			switch {
 			case tr.literalClass != "":
 				cls = "literal-" + tr.literalClass
-			case tr.emptyPattern:
+			case tr.emptyPattern && c09EmptyPatternExplains(p):
 				cls = "like-empty-pattern"
 			}
 			c.Report(vh.Finding{Class: cls, What: fmt.Sprintf("%s: %s", rtClass, jb), Check: "oracle", Op: "json-roundtrip", Input: vh.EncPolicy(p), Expected: "ok " + want, Actual: out})
@@ -723,7 +754,7 @@ func runC09(c *vh.Ctx) {
 		if jb2, err := c09MarshalJSON(pj); err == nil {
 			if o2, _ := c09DecodeJSON(jb2); o2 != out {
 				cls := "json-second-roundtrip"
-				if tr.emptyPattern {
+				if tr.emptyPattern && c09EmptyPatternExplains(p) {
 					cls = "like-empty-pattern"
 				}
 				c.Report(vh.Finding{Class: cls, What: fmt.Sprintf("decode(encode(decode(encode p))) differs from decode(encode p): %s", jb2), Check: "oracle", Op: "json-roundtrip", Input: vh.EncPolicy(p), Expected: out, Actual: o2})
